@@ -155,6 +155,7 @@ class Creators:
               "GFA specification version {} not supported".format(version))
         self.__check_line_queue_version(version, "specified in header VN tag")
       self.header._check_single_definition_tags(gfa_line)
+      self.header._check_datatypes_of_tags(gfa_line)
       if version is not None:
         self.__decide_version(version, "specified in header VN tag")
       self._n_input_header_lines += 1
